@@ -1,4 +1,5 @@
 import functools
+import re
 from collections.abc import Sequence
 from typing import cast
 
@@ -223,7 +224,23 @@ def compare_var(p1: Place, p2: Place) -> int:
     We need to output linear variables at the end, so we do a lexicographic ordering of
     linearity and name.
     """
-    return -1 if (not p1.ty.droppable, str(p1)) < (not p2.ty.droppable, str(p2)) else 1
+    return -1 if _var_sort_key(p1) < _var_sort_key(p2) else 1
+
+
+_TMP_VAR_NAME = re.compile(r"(%tmp)(\d+)(.*)", re.DOTALL)
+
+
+def _var_sort_key(p: Place) -> tuple[bool, str, int, str]:
+    """Sort key implementing the order of `compare_var`.
+
+    Temporary variables are numbered by a session-wide counter. We order them by their
+    number instead of its decimal spelling (`%tmp8` before `%tmp10`), so that the order
+    doesn't depend on how many temporaries have been generated earlier in the session.
+    """
+    name = str(p)
+    if m := _TMP_VAR_NAME.fullmatch(name):
+        return not p.ty.droppable, m[1], int(m[2]), m[3]
+    return not p.ty.droppable, name, 0, ""
 
 
 def sort_vars(row: Row[Place]) -> list[Place]:
